@@ -362,7 +362,7 @@ def m_tuple(ip, args, kw, st, node):
         return [(tuple(v.items), st)]
     if isinstance(v, tuple):
         return [(v, st)]
-    if isinstance(v, IterV):
+    if isinstance(v, (IterV, SeqV)):
         return [(v, st)]
     raise OutOfSubset(f"tuple({v!r})", node)
 
@@ -879,3 +879,11 @@ def m_replace(ip, args, kw, st, node):
     if hook:
         hook(ip, r, st)
     return [(Sym(r, ("ref", cls)), st)]
+
+
+@model("np.lexsort")
+def m_lexsort(ip, args, kw, st, node):
+    """np.lexsort(keys): the stable permutation that sorts by the LAST key first (A-NUMPY); abstracted as a function of the key sequence"""
+    sv = ip.as_seq(args[0], st)
+    f = z3.Function("NP_LEXSORT", z3.ArraySort(I, Ref), I, Ref)
+    return [(Sym(f(sv.arr, sv.n), ("ref", "Obj")), st)]
